@@ -86,7 +86,7 @@ Apply(x, e) ==
   CASE e.c = "UserStart"      -> IF x.st.out # "pending" THEN {UserStart(x)} ELSE {}
     [] e.c = "EnvResolve"     -> IF x.st.pc = "resolve" /\ x.st.wake = "none" THEN {EnvResolve(x, e.a.res)} ELSE {}
     [] e.c = "EnvTcp"         -> IF x.st.pc = "tcp" /\ x.st.wake = "none" THEN {EnvTcp(x, e.a.res)} ELSE {}
-    [] e.c = "UserFinish"     -> IF x.st.out = "ok" /\ x.fi.out = "idle" THEN {UserFinish(x, e.a.login)} ELSE {}
+    [] e.c = "UserFinish"     -> IF x.st.out = "ok" /\ x.fi.out # "pending" THEN {UserFinish(x, e.a.login)} ELSE {}
     [] e.c = "EnvHandshake"   -> IF x.cfg.noise /\ x.fh = "made" /\ ~x.cm /\ x.tr = "open"
                                  THEN {EnvHandshakeChunk(x, e.a.res, e.a.ms)} ELSE {}
     [] e.c = "EnvChunk"       -> IF CanReceive(x) THEN {EnvChunk(x, e.a.ms)} ELSE {}
